@@ -20,6 +20,7 @@ import (
 	"github.com/vektah/gqlparser/v2/formatter"
 	"github.com/vektah/gqlparser/v2/parser"
 	"github.com/vektah/gqlparser/v2/validator"
+	"github.com/vektah/gqlparser/v2/validator/rules"
 	"github.com/vektah/gqlparser/v2/verifhook"
 
 	"verif/mc/explore"
@@ -108,8 +109,26 @@ func c11ArgMap(onDirective bool) func(s *ast.Schema) string {
 	}
 }
 
+// c11CallerRules: a rule list shared by every call of validate-caller-rule-list.
+var c11CallerRules = []validator.Rule{rules.ScalarLeafsRule, {RuleFunc: rules.FieldsOnCorrectTypeRule.RuleFunc}}
+
 var c11Ops = []c11Op{
 	{"validate-fragments", c11Validate(`query Q { node(id: 1) { ...NF } pet { ...PF } trio { ... on Pet { id } ...TF ... on Node { id } } search { ... on Named { id } } } fragment NF on Node { id ... on Pet { kind } } fragment PF on Pet { owner { pets { id } } } fragment TF on Trio { __typename ... on Robot { model } }`)},
+	{"validate-unimplemented-interface", c11Validate(`query Q { planned { ...PL ... on Planned { eta } ... on Pet { id } nope } } fragment PL on Planned { id etaa }`)},
+	{"validate-caller-rule-list", func(s *ast.Schema) string {
+		// a rule list of the caller's, one rule without a name: the list is the caller's to keep
+		doc, err := parser.ParseQuery(&ast.Source{Name: "q.graphql", Input: `{ id { x } pet }`})
+		if err != nil {
+			return "parse: " + err.Error()
+		}
+		before := fmt.Sprintf("%q %q", c11CallerRules[0].Name, c11CallerRules[1].Name)
+		res := errSig(validator.Validate(s, doc, c11CallerRules...))
+		if after := fmt.Sprintf("%q %q", c11CallerRules[0].Name, c11CallerRules[1].Name); after != before {
+			c11CallerRules[1].Name = ""
+			panic("Validate changed the caller's rule list: names " + before + " became " + after)
+		}
+		return res
+	}},
 	{"validate-suggestions", c11Validate(`{ nam pett { id } node(idd: 1) { id } search(q: 1, ks: [DOGG]) { __typename } ... on Pett { id } }`)},
 	{"validate-introspection", c11Validate(`{ __schema { types { ...T } } __type(name: "Pet") { fields { name } } } fragment T on __Type { name fields { name } }`)},
 	{"validate-variables", c11Validate(c11VarsDoc)},
@@ -790,7 +809,7 @@ func runC11(c *explore.Ctx) {
 		s.WallS = time.Since(t0).Seconds()
 	}
 	if c.Thorough() {
-		sub := []int{1, 3, 6, 8, 11, 15} // suggestions, variables, deep introspection, coerce-lists, revalidate-document, format-schema-builtin-compacted
+		sub := []int{1, 3, 5, 8, 10, 13, 17} // unimplemented interface, suggestions, variables, deep introspection, coerce-lists, revalidate-document, format-schema-builtin-compacted
 		s = c.Sub("interleavings-3", fmt.Sprintf("every ordered triple over %d operations as three threads, every schedule with ≤ 2 preemptions", len(sub)), "as above", "schedules with at least one switch")
 		if s != nil {
 			t0 := time.Now()
